@@ -15,7 +15,9 @@ import copy
 import datetime
 import hashlib
 import logging
+import itertools
 import os
+import threading
 import shutil
 import sqlite3
 import tempfile
@@ -184,6 +186,10 @@ class _RequestsShim(object):
 
 
 # ----------------------------------------------------------------- fake connection
+SESSION_HANG_S = 90
+_SESSION_NO = itertools.count(1)
+
+
 class FakeConn(object):
     """events: list of bytes (a segment), b'' (peer closed) or None (recv returns None).
     After the last event recv returns b'' for ever."""
@@ -231,6 +237,11 @@ class FakeConn(object):
 
     def close(self):
         self.closed = True
+
+    def fileno(self):
+        """as the operating system does it: a closed socket reports -1, and the next connection a server accepts
+        gets the lowest free descriptor number - the one the previous connection just gave back"""
+        return -1 if self.closed else 9
 
 
 # ----------------------------------------------------------------- store digest
@@ -379,10 +390,29 @@ class Rig(object):
         saved_requests = slugs_mod.requests
         slugs_mod.requests = _RequestsShim(slugs if slugs is not None else FakeSlugs({}))
         escaped = None
+        box = {}
+
+        def body():
+            try:
+                sess.run()
+            except BaseException as e:      # nothing may leave run()
+                box["escaped"] = "%s: %s" % (type(e).__name__, str(e)[:200])
         try:
-            sess.run()
-        except BaseException as e:      # nothing may leave run()
-            escaped = "%s: %s" % (type(e).__name__, str(e)[:200])
+            if getattr(self, "poisoned", None):
+                escaped = self.poisoned
+            else:
+                # as KmipServer does it: every session is a THREAD of its own (what a session thread keeps - a lock
+                # it never gave back, thread-local state - meets the next session from another thread)
+                th = threading.Thread(target=body, name="verif-session-%d" % next(_SESSION_NO), daemon=True)
+                th.start()
+                th.join(SESSION_HANG_S)
+                if th.is_alive():
+                    escaped = "SessionHung: the session thread did not finish within %d s (frames served so far: %d)" \
+                        % (SESSION_HANG_S, len([i for i in its if i.get("sent")]))
+                    # whatever it waits for is gone for every later session of this rig
+                    self.poisoned = "SessionHung: an earlier session of this server still blocks"
+                else:
+                    escaped = box.get("escaped")
         finally:
             slugs_mod.requests = saved_requests
         return {"iterations": its, "out": list(conn.out), "run_escaped": escaped, "closed": conn.closed,
